@@ -1,6 +1,8 @@
 package exec
 
 import (
+	"os"
+	"time"
 	"fmt"
 	"go/token"
 	"go/types"
@@ -645,6 +647,9 @@ func (m *Machine) Run(fn *ssa.Function) (err error) {
 	m.runRegion([]*Item{it})
 	m.parkSuspended()
 	for m.step = 1; m.step <= m.MaxSteps; m.step++ {
+		if !m.Deadline.IsZero() && time.Now().After(m.Deadline) {
+			m.fail("time budget of the symbolic execution exceeded at step %d", m.step)
+		}
 		cands := m.enumerate()
 		nEnum := len(cands)
 		if !m.NoPrune && m.Feasible != nil {
@@ -667,7 +672,11 @@ func (m *Machine) Run(fn *ssa.Function) (err error) {
 					if len(g.Alts) > 0 {
 						var ks []string
 						for _, it := range m.sortedAlts(g) {
-							ks = append(ks, shortPos(m.posOf(it)))
+							gs := m.C.StringDeep(it.G, 14)
+							if len(gs) > 160 && os.Getenv("VCHECK_FULLGUARD") == "" {
+								gs = gs[:160]
+							}
+							ks = append(ks, shortPos(m.posOf(it))+" if "+gs)
 						}
 						fmt.Printf("      g%d %s: %v\n", g.ID, g.Name, ks)
 					}
@@ -675,6 +684,7 @@ func (m *Machine) Run(fn *ssa.Function) (err error) {
 			}
 		}
 		if len(cands) == 0 {
+			m.quiescent = true
 			break
 		}
 		var ens []T
@@ -731,6 +741,10 @@ func (m *Machine) Run(fn *ssa.Function) (err error) {
 		}
 		for it, sels := range used {
 			it.G = c.And(it.G, c.Not(c.Or(sels...)))
+			// an alternative whose remaining guard is unsatisfiable is dead: drop it (solver-decided)
+			if !it.G.IsFalse() && !m.NoPrune && m.Feasible != nil && !m.Feasible(it.G) {
+				it.G = c.False
+			}
 		}
 		for _, g := range m.gors {
 			for k, it := range g.Alts {
@@ -763,9 +777,19 @@ func (m *Machine) parkSuspended() {
 			continue
 		}
 		it.F = zeroIters(it.F)
-		k := keyString(append([]int32{int32(it.Clock)}, it.F.key()...))
+		it.Since = m.step
+		// alternatives are keyed by program point; the merged alternative carries the larger local clock
+		// (clocks only name events: any value above every clock used so far on either history is sound)
+		k := keyString(it.F.key())
+		if m.ClockKeys {
+			k = keyString(append([]int32{int32(it.Clock)}, it.F.key()...))
+		}
 		if old, ok := it.Gor.Alts[k]; ok {
-			it.Gor.Alts[k] = m.mergeItems(old, it)
+			mi := m.mergeItems(old, it)
+			if it.Clock > mi.Clock {
+				mi.Clock = it.Clock
+			}
+			it.Gor.Alts[k] = mi
 		} else {
 			it.Gor.Alts[k] = it
 		}
@@ -824,6 +848,22 @@ func (m *Machine) finalObligations() {
 	if !notDone.IsFalse() {
 		m.Oblige("unwind", fmt.Sprintf("main goroutine not finished within %d moves", m.MaxSteps), notDone, "")
 	}
+	// leak: at quiescence a library goroutine still parked at an operation nobody can complete
+	if m.quiescent {
+		for _, g := range m.gors {
+			if g == m.MainGor || g.Env || strings.HasPrefix(g.Name, "v") {
+				continue
+			}
+			for _, it := range m.sortedAlts(g) {
+				if it.G.IsFalse() {
+					continue
+				}
+				m.Oblige("leak", fmt.Sprintf("goroutine %s is still blocked at %s after every other goroutine has stopped", g.Name, shortPos(m.posOf(it))), c.And(it.G, m.MainGor.Done), m.posOf(it))
+			}
+		}
+	} else {
+		m.Notes = append(m.Notes, "move bound reached before quiescence: leak obligations not generated")
+	}
 }
 
 // LeakObligation: a goroutine that is neither done nor an environment goroutine still exists with no move.
@@ -841,11 +881,15 @@ var _ = sym.SBool
 
 // orderCands sorts candidates by the baseline scheduling policy (the priority used by deterministic steps).
 func (m *Machine) orderCands(cands []*Cand) {
-	rank := func(g *Gor) int {
-		if g == nil {
+	rank := func(it *Item) int {
+		if it == nil || it.Gor == nil {
 			return 1 << 30
 		}
+		g := it.Gor
 		env := g.Env || strings.HasPrefix(g.Name, "vm") || strings.HasPrefix(g.Name, "v")
+		if strings.HasPrefix(g.Name, "vmNewTicker") && (m.Policy != "env-first" || it.Clock >= 3) {
+			return 1 << 25 // time passes when nothing else can move (ticks are still subject to the fairness rule)
+		}
 		switch m.Policy {
 		case "rev":
 			return -g.ID
@@ -872,14 +916,90 @@ func (m *Machine) orderCands(cands []*Cand) {
 		}
 		return g.ID
 	}
+	fair := m.Fairness
+	if fair == 0 {
+		fair = 10
+	}
 	pr := func(cd *Cand) int {
-		r := rank(cd.A.it.Gor)
+		r := rank(cd.A.it)
+		since := cd.A.it.Since
 		if cd.B.it != nil {
-			if r2 := rank(cd.B.it.Gor); r2 < r {
-				r = r2
+			if r2 := rank(cd.B.it); r2 > r {
+				r = r2 // a rendezvous needs both parties: it is as urgent as its less urgent party
 			}
+			if cd.B.it.Since > since {
+				since = cd.B.it.Since // enabled since both parties are parked
+			}
+		}
+		// fairness: a move that has been enabled for a long time goes first (oldest first)
+		if age := m.step - since; age > fair {
+			return -(1 << 40) - age
 		}
 		return r
 	}
 	sort.SliceStable(cands, func(i, j int) bool { return pr(cands[i]) < pr(cands[j]) })
+	// competition for one endpoint (several senders for one receiver, several ready cases of one select) is
+	// resolved in rotation: the alternative chosen least recently goes first (Go: FIFO wait queues, random select)
+	groups := map[*Item][]int{}
+	for i, cd := range cands {
+		groups[cd.A.it] = append(groups[cd.A.it], i)
+		if cd.B.it != nil {
+			groups[cd.B.it] = append(groups[cd.B.it], i)
+		}
+	}
+	for x, idxs := range groups {
+		if len(idxs) < 2 {
+			continue
+		}
+		sub := make([]*Cand, len(idxs))
+		for k, i := range idxs {
+			sub[k] = cands[i]
+		}
+		arrival := func(cd *Cand) int {
+			// a waiting partner is served in arrival order (Go's channel wait queues are FIFO); alternatives
+			// without a partner (closed channel, default) rotate by the time they were last taken
+			if cd.B.it != nil {
+				if cd.A.it == x {
+					return cd.B.it.Since
+				}
+				return cd.A.it.Since
+			}
+			return m.lastChosen[m.choiceKey(x, cd)]
+		}
+		sort.SliceStable(sub, func(a, b int) bool { return arrival(sub[a]) < arrival(sub[b]) })
+		for k, i := range idxs {
+			cands[i] = sub[k]
+		}
+	}
+	if len(cands) > 0 {
+		first := cands[0]
+		for _, cd := range cands {
+			if cd.En.IsTrue() {
+				first = cd
+				break
+			}
+		}
+		if m.lastChosen == nil {
+			m.lastChosen = map[string]int{}
+		}
+		m.lastChosen[m.choiceKey(first.A.it, first)] = m.step
+		if first.B.it != nil {
+			m.lastChosen[m.choiceKey(first.B.it, first)] = m.step
+		}
+	}
+}
+
+// choiceKey names the alternative cd offers to endpoint x (its program point plus the partner / select case).
+func (m *Machine) choiceKey(x *Item, cd *Cand) string {
+	other, ci := -1, -1
+	if cd.A.it == x {
+		ci = cd.A.caseIdx
+		if cd.B.it != nil {
+			other = cd.B.it.Gor.ID
+		}
+	} else {
+		ci = cd.B.caseIdx
+		other = cd.A.it.Gor.ID
+	}
+	return fmt.Sprintf("%d|%s|%s|%d|%d", x.Gor.ID, keyString(x.F.key()), cd.Kind, ci, other)
 }
